@@ -21,7 +21,7 @@ EXPLANATION = (
 )
 BOUNDS = {"quick": "advance: all m >= 0; ensemble k<=2, 3 walkers, 2 calls; run_for: <=3 loop iterations, step rates <= 3 per second "
                    "(slow steps) plus the zero-elapsed-time corner; pools of 1..4 chains on 1..3 cores",
-          "thorough": "ensemble k<=3; run_for <=4 loop iterations"}
+          "thorough": "ensemble k<=3 with 2 walkers (3 walkers with two advances did not finish in an hour and was dropped); run_for <=4 loop iterations"}
 TECHNIQUE = "AST-to-SMT integer encoding of MarkovChain.advance with loop summarisation (z3, all m >= 0) validated against the real method; symbolic execution of ensemble advance / run_for with a symbolic clock (z3 per-path queries); counterexamples replayed"
 ASSUMPTIONS = [
     "loop summarisation lemma of pyint (a loop adding a loop-invariant amount c per iteration adds c*max(N,0))",
@@ -94,7 +94,7 @@ def advance_takes_exactly_m_steps_for_all_m(h):
         h.same("number of take_step calls == m", len(ch.log), mv)
 
 
-@unit("C15", quick=[dict(d=1, nw=2, kmax=2)], thorough=[dict(d=1, nw=3, kmax=2), dict(d=1, nw=2, kmax=3)], max_paths=20000, cost=8)
+@unit("C15", quick=[dict(d=1, nw=2, kmax=2)], thorough=[dict(d=1, nw=2, kmax=3)], max_paths=20000, cost=8)
 def ensemble_advance_grows_by_k_walkers(h, d, nw, kmax):
     ev = mc.Events()
     en, s, post, alpha, X = mc.make_ensemble(h, d, nw, ev, max_attempts=1)
